@@ -475,7 +475,7 @@ func Replay(t *testing.T, id string) {
 // Regress replays regress/<ID>/*.json (shrunk reproductions of defects that were fixed) before any
 // search starts; a returning defect fails at once. Only shard 0 does it.
 func (r *R) Regress(t *testing.T) {
-	if r.res.Shard != 0 {
+	if r.res.Shard != 0 || os.Getenv("VERIF_NO_REGRESS") != "" { // (the variable is for sensitivity runs of the search alone)
 		return
 	}
 	files, _ := filepath.Glob(filepath.Join(Root(), "regress", r.res.Property, "*.json"))
